@@ -69,20 +69,29 @@ PROPS["C02"] = dict(
         "the model answers `any`",
         "a Go panic on a (malformed) state is counted as a rejection (`err`); panic-freedom on invalid input is C03",
         "theorems are on the Nat level: M models the control flow of the Go code without uint64 wrap-around",
+        "the theorems are about the pure forms of S (lean/Zrnt/Beacon/Spec/Pure.lean, EpochPure.lean); the monadic S used as oracle compares itself "
+        "with them on every evaluation (a disagreement would print err-oracle and show as a mismatch)",
+        "M takes epc.PreviousEpoch/CurrentEpoch/NextEpoch.ActiveIndices and epc.TotalActiveStake as the active sets / total of the start-of-epoch "
+        "registry (EpochsContext correctness is C08); with MAX_SEED_LOOKAHEAD=0 the stale next-epoch actives make the sync committee differ from the "
+        "spec's (known finding)",
         "fork schedules where electra is reached are out of scope (S has no electra); ELECTRA_FORK_EPOCH is kept at FAR_FUTURE",
     ],
     manifest=dict(
-        level_text="Lean theorems M = S for all inputs (no size bound) for every sub-transition where zrnt's algorithm differs in shape from the spec: "
-                   "the whole registry update (one-scan batched exit queue = sequential initiate_validator_exit, eligibility marks, sorted-prefix "
-                   "activations incl. deneb's activation churn limit: registry_updates_eq), justification/finalization on the bits byte (justification_eq), "
-                   "effective-balance hysteresis read from the start-of-epoch snapshot (effectiveBalance_snapshot_eq), slashings (slashings_eq); plus a "
-                   "differential run of the real Go code against the executable Lean specification S for every epoch sub-transition, whole ProcessSlots "
-                   "spans and the four fork upgrades, on synthetic states of all five forks under several parameter sets and on states reached by valid "
-                   "chains with blocks",
-        level_note="trusted: Lean kernel, the specification transcription S, the flat exchange format, harness generator; state roots and BLS aggregates "
-                   "are inputs from the Go side; sub-transitions without a separate M (rewards, inactivity, resets, historical, participation, sync "
-                   "committees, process_slot, upgrades) rest on the correspondence Go = S only; no end-to-end processSlots_eq theorem (the monadic "
-                   "wrappers of S are not composed in Lean)",
+        level_text="Lean theorems M = S for all inputs (no size bound) for EVERY epoch sub-transition and for the whole epoch transition: "
+                   "phase0 attester statuses + one-pass attestation rewards (rewards_phase0_eq), altair..deneb flag deltas, inactivity, 4-pass "
+                   "ApplyDeltas and target stakes (flagDeltas_altair_eq, inactivity_eq, rewards_altair_eq, currentTargetStake_eq), the whole "
+                   "registry update (registry_updates_eq), justification on the bits byte (justification_eq), slashings and effective balances "
+                   "read from the start-of-epoch snapshot (slashings_snapshot_eq under the proved-preserved invariant WF, "
+                   "effectiveBalance_snapshot_eq), resets, historical accumulators, participation and sync-committee rotation, composed into "
+                   "processEpoch_eq (zrnt's ProcessEpoch = the spec's process_epoch for all five forks on EpochWF states); plus a differential run "
+                   "of the real Go code against the code-shaped model M AND the executable specification S (Go = M = S per line) for every "
+                   "sub-transition, whole ProcessSlots spans incl. several fork boundaries, and the four upgrades, on synthetic states of all "
+                   "five forks under several parameter sets and on states reached by valid chains with blocks",
+        level_note="trusted: Lean kernel, the specification transcription S (its theorem-facing pure form Spec/Pure.lean + Spec/EpochPure.lean is "
+                   "compared with the literal monadic transcription on every evaluated line), the flat exchange format, harness generator; state "
+                   "roots and BLS aggregates are inputs from the Go side; committee resolution of pending attestations, process_slot and the four "
+                   "upgrade_to_* have no separate model and rest on Go = S only; processSlots_eq is proved only as the composition step "
+                   "(processSlots_eq_partial: invariant preservation across slots/upgrades is a hypothesis)",
         technique="Lean 4 refinement proofs (code-shaped model = spec) + Go/Lean differential correspondence on flat states",
         design_ref="DESIGN.md 5/C02", engine="lean"),
 )
